@@ -59,7 +59,18 @@ func (w *World) opTable() []opFn {
 		ops = append(ops, opFn{"api-list", 3, func() bool { return true }, w.opAPIList})
 	}
 	if p.Reload {
-		ops = append(ops, opFn{"reload", 2, func() bool { return true }, w.opReload})
+		rw := 2
+		if p.Restore {
+			rw = 5
+		}
+		ops = append(ops, opFn{"reload", rw, func() bool { return true }, w.opReload})
+	}
+	if p.Restore {
+		// the periodic pod-IP sync pass on its own (it adopts the annotated IPs of running pods whose record was lost)
+		ops = append(ops, opFn{"pod-ip-sync", 3, func() bool { return len(w.everDropped) > 0 }, func() {
+			inst := w.inst
+			w.spawnGalaxy("resync", "resync", func() { syncOnlyTask(inst) })
+		}})
 	}
 	if p.Crash {
 		ops = append(ops, opFn{"crash", 1, func() bool { return true }, w.opCrash})
@@ -542,8 +553,17 @@ func (w *World) opCollect() {
 }
 
 func (w *World) opReload() {
-	desc := w.topo.mutate(w.C)
-	w.confVers = append(w.confVers, w.topo.Snapshot())
+	var hot map[string]bool
+	if w.prof.Restore {
+		hot = map[string]bool{}
+		for _, p := range w.podsWhere(func(p *PodInfo) bool { return p.Node != "" && p.live() }) {
+			for _, ip := range p.IPs {
+				hot[ip] = true
+			}
+		}
+	}
+	desc := w.topo.mutate(w.C, w.prof.Restore, hot)
+	w.publishConf(w.topo.Snapshot())
 	js := w.topo.JSON()
 	w.K.Patch(nil, "configmaps", "kube-system", "floatingip-config", func(m map[string]interface{}) {
 		m["data"] = map[string]interface{}{"floatingips": js}
